@@ -47,7 +47,9 @@ def check(ctx):
             ref = fld(pt, 'channel_weights_')
             ok_pt = isinstance(ref, tuple) and ref[0] == 'ref' and ex.read(s.state, ref[1]) == cw
             sel_loops = [l for l in s.loops if 'discrete_distribution' in l.func.qualname]
-            ok_sel = len(sel_loops) == 1 and list(sel_loops[0].updates.values())[0]['init'] == ('vpsum', cw, ZERO, T.size(cw), ZERO)
+            if len(sel_loops) != 1 or not sel_loops[0].updates:
+                raise AnalysisBroken('construction of the channel selector not recognised')
+            ok_sel = list(sel_loops[0].updates.values())[0]['init'] == ('vpsum', cw, ZERO, T.size(cw), ZERO)
             ok_ret = fld(s.ret, 'channel_weights_') == cw
             if ok_pt and ok_sel and ok_ret:
                 ctx.holds('R1.result_records_state', where, 'channel selector, point weight and the returned '
